@@ -360,10 +360,13 @@ def step (d : DState) (line : String) : DState × List String :=
     let t := Tree.build d.D d.H f.bs f.mode leafIdx
     ({ d with tree := t, st := {} }, [])
   | ["export", "data"] =>
-    (d, (List.range d.f.stored.size).map fun p =>
-      " ".intercalate (["XD", toString p, if d.f.data64 then "64" else "32"] ++ (d.f.stored.getD p []).map hexOf))
+    -- getAllParticlesData: walk the particles in storage order, write each one's values at its original index
+    let out := d.tree.exportBy [] (fun p => d.f.stored.getD p []) d.f.stored.size
+    (d, out.zipIdx.map fun (v, p) =>
+      " ".intercalate (["XD", toString p, if d.f.data64 then "64" else "32"] ++ v.map hexOf))
   | ["export", "rhs"] =>
-    (d, (List.range d.f.rhs.size).map fun p => " ".intercalate (["XR", toString p] ++ (d.f.rhs.getD p []).map toString))
+    let out := d.tree.exportBy [] (fun p => d.f.rhs.getD p []) d.f.rhs.size
+    (d, out.zipIdx.map fun (v, p) => " ".intercalate (["XR", toString p] ++ v.map toString))
   | ["dump", "structure"] => (d, dumpStructure d.tree)
   | ["dump", "values"] => (d, dumpValues d.tree d.st)
   | "exec" :: "seq" :: ts =>
